@@ -1,4 +1,4 @@
-//! `vh-c07 C07 --seed N --tier quick|thorough --out DIR [--replay FILE] [--scale K] [arith|header]`
+//! `vh-c07 C07 --seed N --tier quick|thorough --out DIR [--replay FILE] [--scale K] [arith|header|node]`
 //! Correspondence harness for property C07 (own crate so that work-in-progress on other properties
 //! cannot break this build).  `arith` = harness/hcore/src/c07.rs (shared by path; also reachable as
 //! `vh-core C07`), `header` = src/header.rs (needs ckb-verification).
@@ -8,15 +8,22 @@ mod common;
 #[path = "../../hcore/src/c07.rs"]
 mod c07;
 mod header;
+#[path = "../../hnode/src/node.rs"]
+pub mod node;
+mod nodechain;
 
 fn main() {
     let args: Vec<String> = std::env::args().skip(1).collect();
     if args.is_empty() {
-        eprintln!("usage: vh-c07 C07 --seed N --tier T --out DIR [arith|header]");
+        eprintln!("usage: vh-c07 C07 --seed N --tier T --out DIR [arith|header|node]");
         std::process::exit(2);
     }
     let opts = common::Opts::parse(&args[1..]);
-    let stream = if opts.extra.first().map(|s| s.as_str()) == Some("header") { "header" } else { "epoch" };
+    let stream = match opts.extra.first().map(|s| s.as_str()) {
+        Some("header") => "header",
+        Some("node") => "node",
+        _ => "epoch",
+    };
     // every corpus file is offered to every stream: a file declares its stream in a comment line
     // `# stream: <name>` (or bin/check's `# property C07 stream <name> ...`); foreign files are skipped
     if let Some(rp) = &opts.replay {
@@ -36,6 +43,7 @@ fn main() {
     }
     match opts.extra.first().map(|s| s.as_str()) {
         Some("header") => header::run(&opts),
+        Some("node") => nodechain::run(&opts),
         _ => c07::run(&opts),
     }
 }
